@@ -14,7 +14,7 @@ from sa.ctx import Ctx, short, stmt_key, ENGINE_MODULES
 from sa.cfg import NORMAL, describe_path
 from sa.report import Report
 from sa.effects import Effects
-from sa.util import cfg_root, node_has_call, node_stores_attr, has_fact, exists_in
+from sa.util import cfg_root, node_has_call, node_stores_attr, has_fact, exists_in, fact_in, local_assigned_from
 from sa import pat
 
 DESTRUCTIVE = {"delete", "upload", "rmtree"}
@@ -61,7 +61,8 @@ class C02:
                     ok = True
                     why = "guarded at its caller (R2)"
                 else:
-                    ok = ("keep", False) in facts and any((not pol) and " is " in txt for (txt, pol) in facts)
+                    keep = local_assigned_from(ctx, f, "self.__safe_call_resolver($$$)", 1)
+                    ok = keep is not None and fact_in(facts, keep, False) and has_fact(facts, "$A is $B", False)
                     why = "resolver upload only over the losing handle and only when the loser is not kept"
                 rep.check("C02.R1", key, ctx.line(f, c), ok, why, "destructive call `%s` lost its guard (%s; facts: %s)" % (ast.unparse(c)[:60], why, sorted(facts)), func=f.qname)
         for fname in expected:
@@ -116,7 +117,8 @@ class C02:
                 # the test is evaluated before the provider delete on every path (for rename: on the paths where the path translates)
                 tests = [n for n in g.nodes if n.kind == "test" and pat.match(fact, n.ast) is not None]
                 loops = [n for n in g.nodes if n.kind == "iter" and any(any(x is t.ast for x in ast.walk(n.ast)) for t in tests)]
-                tp = {n.id for n in g.nodes if n.kind == "test" and pat.match("translated_path", n.ast) is not None}
+                tpn = local_assigned_from(ctx, d, "self.translate($$$)") or "translated_path"
+                tp = {n.id for n in g.nodes if n.kind == "test" and pat.match(tpn, n.ast) is not None}
                 pth = g.reach([g.entry.id], lambda n: n in dele, avoid=lambda n: n in loops,
                               follow=lambda a, b, l: l != "exc" and not (what == "pending rename" and a in tp and l == "F") and not (what == "pending rename" and g.nodes[a].kind == "test" and pat.match("%s[%s].path" % (sync, changed), g.nodes[a].ast) is not None and l == "F"))
                 ok = pth is None
@@ -129,7 +131,8 @@ class C02:
                  "which uses rename only and retries with a counter on CloudFileExistsError", expect_min=3)
         f = ctx.prog.func("SyncManager.resolve_conflict")
         calls = ctx.calls(f, "_resolve_rename")
-        ok = bool(calls) and all(("keep", True) in ctx.facts_at(f, c) for c in calls)
+        keep = local_assigned_from(ctx, f, "self.__safe_call_resolver($$$)", 1)
+        ok = bool(calls) and keep is not None and all(fact_in(ctx.facts_at(f, c), keep, True) for c in calls)
         rep.check("C02.R4", "resolve_conflict|keep-arm", f, ok, "_resolve_rename(loser) under keep", "the keep arm no longer renames the loser away")
         rr = ctx.prog.func("SyncManager._resolve_rename")
         ok = any(isinstance(n, ast.Call) and pat.match("self.conflict_rename($$$)", n) is not None for n in ctx.own_nodes(rr))
@@ -142,7 +145,8 @@ class C02:
         rep.check("C02.R4", "conflict_rename", cr, ok and only_rename and name_ok and retry, "rename only, '.conflicted' name, retry on exists",
                   "conflict_rename changed: via _resolve_rename %s, rename only %s, '.conflicted' in name %s, retries on exists %s" % (ok, only_rename, name_ok, retry))
         info = [c for c in ctx.calls(cr, "info_path")]
-        rep.check("C02.R4", "conflict_rename|by-id", cr, bool(info) and any(pat.match("self.providers[$S].rename(oinfo.oid, $P)", m) is not None for m in muts),
+        oi = local_assigned_from(ctx, cr, "self.providers[$S].info_path($P)") or "oinfo"
+        rep.check("C02.R4", "conflict_rename|by-id", cr, bool(info) and any(pat.match("self.providers[$S].rename(%s.oid, $P)" % oi, m) is not None for m in muts),
                   "renames the object currently at the path, by id", "conflict_rename no longer renames by the id found at the path", nontrivial=False)
 
     def r5(self):
